@@ -49,6 +49,12 @@ Proof. intros H. rewrite <- Zle_Qle. exact H. Qed.
 Lemma inject_Z_lt a b : a < b -> (inject_Z a < inject_Z b)%Q.
 Proof. intros H. rewrite <- Zlt_Qlt. exact H. Qed.
 
+Lemma inject_Z_minus1 q : (inject_Z (q - 1) == inject_Z q - 1)%Q.
+Proof. unfold Z.sub. rewrite inject_Z_plus, inject_Z_opp. reflexivity. Qed.
+
+Lemma inject_Z_plus1 q : (inject_Z (q + 1) == inject_Z q + 1)%Q.
+Proof. rewrite inject_Z_plus. reflexivity. Qed.
+
 (* a # d as a quotient *)
 Lemma Qmake_mult a (d : positive) : ((a # d) * inject_Z (Zpos d) == inject_Z a)%Q.
 Proof. unfold Qeq, Qmult, inject_Z. cbn. lia. Qed.
@@ -176,5 +182,124 @@ Section RoundMag.
       split.
       + rewrite E0. cbn [Qabs Z.abs]. change (Qabs 0) with 0%Q. lra.
       + rewrite E0. change (Qabs 0) with 0%Q. intros Hc. exfalso. lra.
+  Qed.
+
+  (* ---- the format: at most prec mantissa bits, last place at least emin *)
+  Definition in_format (y : Q) : Prop :=
+    exists k c, (y == inject_Z k * T c)%Q /\ Z.abs k < 2 ^ prec /\
+                match emin with Some em => em <= c | None => True end.
+
+  Lemma rm_emin_le : match emin with Some em => em <= e' | None => True end.
+  Proof.
+    destruct rm_shape as [He' _]. unfold sh, round_shift in He'.
+    destruct emin as [em|]; [|exact I]. lia.
+  Qed.
+
+  Theorem round_mag_in_format : in_format R.
+  Proof.
+    destruct rm_shape as [He' [[Hq0 Hq1] _]]. pose proof rm_emin_le as Hem.
+    destruct (Z.eq_dec q' (2 ^ prec)) as [E|E].
+    - exists (2 ^ (prec - 1)), (e' + 1). split; [|split].
+      + unfold R. rewrite E, T_succ. rewrite (pow2_split prec Hprec), inject_Z_mult.
+        change (inject_Z 2) with 2%Q. ring.
+      + rewrite Z.abs_eq by (apply Z.pow_nonneg; lia). apply Z.pow_lt_mono_r; lia.
+      + destruct emin; [lia|exact I].
+    - exists q', e'. split; [reflexivity|]. split; [|exact Hem].
+      rewrite Z.abs_eq by lia. lia.
+  Qed.
+
+  (* the binade of x *)
+  Lemma rm_frac : (inject_Z m <= a # d)%Q /\ (a # d < inject_Z m + 1)%Q.
+  Proof.
+    assert (Hd : (0 < inject_Z (Zpos d))%Q) by (apply (inject_Z_lt 0); lia).
+    pose proof (Z.div_mod a (Zpos d) ltac:(lia)) as Ea. fold m in Ea.
+    pose proof (Z.mod_pos_bound a (Zpos d) ltac:(lia)) as Hr.
+    split.
+    - apply (Qmult_le_r _ _ _ Hd). rewrite Qmake_mult, <- inject_Z_mult. apply inject_Z_le. lia.
+    - apply (Qmult_lt_r _ _ _ Hd). rewrite Qmake_mult.
+      change 1%Q with (inject_Z 1). rewrite <- inject_Z_plus, <- inject_Z_mult. apply inject_Z_lt. lia.
+  Qed.
+
+  Lemma rm_binade : (T (bitlen m - 1 + e) <= x)%Q /\ (x < T (bitlen m + e))%Q.
+  Proof.
+    destruct rm_frac as [F1 F2]. pose proof (T_pos e) as Hte.
+    pose proof (bitlen_bounds (Z.to_pos m)) as [B1 B2]. rewrite rm_pos in B1, B2.
+    pose proof (bitlen_pos_ge1 (Z.to_pos m)) as Hn. rewrite rm_pos in Hn.
+    unfold x. rewrite !T_add, (T_Z (bitlen m - 1)), (T_Z (bitlen m)) by lia. split.
+    - apply Qmul_le_r; [lra|]. apply Qle_trans with (2 := F1). apply inject_Z_le. exact B1.
+    - apply Qmult_lt_r; [exact Hte|]. apply Qlt_le_trans with (1 := F2).
+      change 1%Q with (inject_Z 1). rewrite <- inject_Z_plus. apply inject_Z_le. lia.
+  Qed.
+
+  (* R is a nearest point of the grid 2^e' Z *)
+  Lemma rm_grid_nearest (j : Z) : (Qabs (x - R) <= Qabs (x - inject_Z j * T e'))%Q.
+  Proof.
+    destruct round_mag_half_ulp as [Hh _]. pose proof (T_pos e') as Hu.
+    apply Qabs_Qle_condition in Hh. unfold R in *.
+    set (u := T e') in *. set (Rq := (inject_Z q' * u)%Q) in *. set (J := (inject_Z j * u)%Q).
+    destruct (Z.lt_trichotomy j q') as [Hlt|[Heq|Hgt]].
+    - assert (HJ : (J <= Rq - u)%Q).
+      { unfold J, Rq. setoid_replace (inject_Z q' * u - u)%Q with ((inject_Z q' - 1) * u)%Q by ring.
+        apply Qmul_le_r; [lra|]. rewrite <- inject_Z_minus1. apply inject_Z_le. lia. }
+      apply Qabs_case; intros; apply Qabs_case; intros; lra.
+    - unfold J, Rq. rewrite Heq. apply Qle_refl.
+    - assert (HJ : (Rq + u <= J)%Q).
+      { unfold J, Rq. setoid_replace (inject_Z q' * u + u)%Q with ((inject_Z q' + 1) * u)%Q by ring.
+        apply Qmul_le_r; [lra|]. rewrite <- inject_Z_plus1. apply inject_Z_le. lia. }
+      apply Qabs_case; intros; apply Qabs_case; intros; lra.
+  Qed.
+
+  (* no element of the format is nearer to x than R *)
+  Theorem round_mag_nearest y : in_format y -> (Qabs (x - R) <= Qabs (x - y))%Q.
+  Proof.
+    intros [k [c [Ey [Hk Hc]]]].
+    destruct (Z.le_gt_cases e' c) as [Hge|Hlt].
+    - (* y is on the grid *)
+      pose proof (rm_grid_nearest (k * 2 ^ (c - e'))) as G.
+      assert (E : (y == inject_Z (k * 2 ^ (c - e')) * T e')%Q).
+      { rewrite Ey, inject_Z_mult. replace c with (e' + (c - e')) at 1 by lia.
+        rewrite T_shift by lia. ring. }
+      rewrite E. exact G.
+    - (* y is below the binade of x *)
+      destruct rm_shape as [He' [_ [Hsh0 _]]].
+      destruct (Z.lt_ge_cases 0 sh) as [Hsh|Hsh].
+      + assert (Ee : e' = bitlen m - prec + e).
+        { unfold sh, round_shift in *. rewrite rm_pos in *. destruct emin as [em|]; lia. }
+        destruct rm_binade as [B1 _].
+        set (B := T (bitlen m - 1 + e)) in *.
+        (* |y| < B *)
+        assert (Hy : (Qabs y < B)%Q).
+        { rewrite Ey, Qabs_Qmult. rewrite (Qabs_pos (T c)) by (apply Qlt_le_weak; apply T_pos).
+          change (Qabs (inject_Z k)) with (inject_Z (Z.abs k)).
+          apply Qlt_le_trans with (inject_Z (2 ^ prec) * T c)%Q.
+          - apply Qmult_lt_r; [apply T_pos|]. apply inject_Z_lt. exact Hk.
+          - rewrite <- T_Z, <- T_add by lia. apply T_le. lia. }
+        (* B is on the grid *)
+        pose proof (rm_grid_nearest (2 ^ (prec - 1))) as G.
+        assert (EB : (inject_Z (2 ^ (prec - 1)) * T e' == B)%Q).
+        { unfold B. rewrite <- T_Z, <- T_add by lia. replace (prec - 1 + e') with (bitlen m - 1 + e) by lia. reflexivity. }
+        rewrite EB in G.
+        assert (Hyy : (y <= Qabs y)%Q) by apply Qle_Qabs.
+        apply Qle_trans with (1 := G).
+        apply Qabs_case; intros; apply Qabs_case; intros; lra.
+      + (* exact *)
+        destruct round_mag_half_ulp as [Hh _].
+        assert (Hs : sticky = false).
+        { destruct (Bool.bool_dec sticky true) as [Es|Es]; [pose proof (rm_sh_pos_when_sticky Es); lia|].
+          apply not_true_is_false. exact Es. }
+        (* x == R was shown inside round_mag_half_ulp; here it follows from e' = e <= c < e' being impossible
+           unless the format has a smaller exponent: use the bound directly *)
+        assert (Ex : (x == R)%Q).
+        { assert (Hmod : a mod Zpos d = 0).
+          { unfold sticky in Hs. apply negb_false_iff in Hs. apply Z.eqb_eq in Hs. exact Hs. }
+          assert (Ea : a = m * Zpos d).
+          { unfold m. pose proof (Z.div_mod a (Zpos d) ltac:(lia)). lia. }
+          assert (Hd : (0 < inject_Z (Zpos d))%Q) by (apply (inject_Z_lt 0); lia).
+          unfold x, R. rewrite (Hsh0 Hsh). replace e' with e by lia.
+          apply (Qmult_inj_r _ _ (inject_Z (Zpos d))); [lra|].
+          setoid_replace ((a # d) * T e * inject_Z (Z.pos d))%Q with (((a # d) * inject_Z (Z.pos d)) * T e)%Q by ring.
+          rewrite Qmake_mult. rewrite Ea at 1. rewrite inject_Z_mult. ring. }
+        assert (E0 : (x - R == 0)%Q) by lra.
+        rewrite E0. change (Qabs 0) with 0%Q. apply Qabs_nonneg.
   Qed.
 End RoundMag.
